@@ -39,7 +39,11 @@ def check_k(ctx, case, enum=False):
     ctx.ev()
     want = RR.k(n, x, hf, data, extra, retry)
     try:
-        got = L.generate_k(n, x, hf, data, retry_gen=retry, extra_entropy=extra)
+        from .c01 import as_type, PAYLOAD_TYPES
+        t = PAYLOAD_TYPES[(n + x + len(data)) % len(PAYLOAD_TYPES)]
+        t2 = ("bytes", "bytearray", "memoryview", "array-B")[(n + retry) % 4]
+        got = L.generate_k(n, x, hf, as_type(data, t if t not in ("array-H", "view-cast-I") else "bytearray"),
+                           retry_gen=retry, extra_entropy=as_type(extra, t2))
     except Exception as e:
         ctx.fail("generate_k/exception/%s" % exc_sig(e), case, repr(e))
         return
